@@ -38,6 +38,11 @@ type c20Case struct {
 type c20Prog struct {
 	Populated bool      `json:"populated"`
 	Cases     []c20Case `json:"cases"`
+	// Workload != "": instead of hostile requests, run number WRun of that check's VALID workload (uploads in
+	// every encoding, multipart uploads with checksum algorithms, copies, reads) and report only what C20 is
+	// about: a panic that escapes a handler
+	Workload string `json:"workload,omitempty"`
+	WRun     int    `json:"wrun,omitempty"`
 }
 
 type c20 struct{ baseCheck }
@@ -203,6 +208,12 @@ func (c20) Gen(seed uint64, run int, tier string) *core.Case {
 	cfg.Instances = 1
 	cfg.CacheTTL = []int{0, 120}[r.IntN(2)]
 	p := c20Prog{Populated: run%4 != 0}
+	if run%10 == 9 {
+		q := c20Prog{Workload: "C01", WRun: r.IntN(1 << 20)}
+		cw := &core.Case{Check: "C20", Property: "C20", Seed: seed, Cfg: cfg}
+		cw.SetP(&q)
+		return cw
+	}
 	tab := routes.Table()
 	n := 40
 	for i := 0; i < n; i++ {
@@ -333,6 +344,18 @@ func panicSite(stack string) string {
 func (c20) Exec(c *core.Case) (out *core.Outcome) {
 	var p c20Prog
 	c.GetP(&p)
+	if p.Workload == "C01" {
+		sub := c01{}.Gen(c.Seed, p.WRun, c.Tier)
+		so := c01{}.Exec(sub)
+		o := &core.Outcome{Evals: 1, Probes: map[string]int{"valid_workload_run": 1, "case_reached_router": 1}, Faults: so.Faults, SimSeconds: so.SimSeconds,
+			TraceHash: so.TraceHash, Interleave: so.Interleave, Steps: so.Steps, Requests: so.Requests}
+		o.AddClass("valid-workload|C01|%d", p.WRun%50)
+		for _, gp := range so.GatewayPanics {
+			parts := strings.SplitN(gp, "|", 3)
+			o.Violate("panic", "C20/panic-in-valid-workload/"+parts[0], "valid workload (run %d of C01's generator): gateway panicked: %s", p.WRun, gp)
+		}
+		return o
+	}
 	o := &core.Outcome{}
 	out = o
 	defer guard(&out, c)
